@@ -12,7 +12,6 @@ import (
 	"github.com/form3tech-oss/f1/v2/verifharness/engine"
 
 	"github.com/anishathalye/porcupine"
-	"github.com/form3tech-oss/f1/v2/internal/workers"
 	"sync"
 	"sync/atomic"
 	"time"
@@ -343,7 +342,7 @@ func c03Porcupine(c *core.Case, o *core.Outcome) {
 		limit := uint64(r.IntN(12))
 		clients := 2 + r.IntN(4)
 		per := 2 + r.IntN(4)
-		m := workers.New(limit, nil)
+		m := engine.NewPoolManager(limit, nil)
 		var ops []porcupine.Operation
 		var mu sync.Mutex
 		var clock atomic.Int64
